@@ -170,6 +170,41 @@ def _r3(model, res):
         n += 1
         ok = False
         why = repr(v)
+        rx_notes = [s_ for (t_, a_, s_) in o.notes if isinstance(s_, Atom) and s_.op in ('re.match', 're.search', 're.fullmatch')]
+        if rx_notes and isinstance(v, Const) and isinstance(v.value, bool):
+            # a wildcard predicate implemented with a regular expression built from the criterion
+            kinds.add('wildcard')
+            a = rx_notes[-1]
+            pat, subj = a.args
+            roles = getattr(subj, 'name', None) == 'ITEM' and 'CRIT' in repr(pat) and 'ITEM' not in repr(pat)
+
+            def ends_anchored(p_):
+                if isinstance(p_, Const) and isinstance(p_.value, str):
+                    return p_.value.endswith('$') or p_.value.endswith('\\Z') or p_.value.endswith('\\z')
+                if isinstance(p_, Atom) and p_.op == 'concat' and p_.args:
+                    return ends_anchored(p_.args[-1])
+                if isinstance(p_, Atom) and p_.op == 'fnmatch.translate':
+                    return True
+                return False
+
+            def starts_anchored(p_):
+                if isinstance(p_, Const) and isinstance(p_.value, str):
+                    return p_.value.startswith('^') or p_.value.startswith('\\A')
+                if isinstance(p_, Atom) and p_.op == 'concat' and p_.args:
+                    return starts_anchored(p_.args[0])
+                return False
+            full = a.op == 're.fullmatch' or (ends_anchored(pat) and (a.op == 're.match' or starts_anchored(pat)))
+            res.ob('R3', 'parse_criteria', {'predicate': '%s(pattern from the criterion, item)' % a.op}, roles and full,
+                   'whole item must match' if not full else '')
+            if not roles:
+                res.violation('R3', '%s:parse_criteria:roles' % m.name, m.where(f),
+                              'a wildcard predicate must match the item against a pattern made from the criterion; got %r' % (a,), func='parse_criteria')
+            elif not full:
+                res.violation('R3', '%s:parse_criteria:wildcard-prefix-match' % m.name, m.where(f),
+                              'wildcard criteria are matched with a regular expression built from the criterion and applied with %s without an '
+                              'end anchor: a cell only has to *start* with the pattern (criterion "ap?" also selects "apple")' % a.op.split('.')[-1],
+                              func='parse_criteria')
+            continue
         if isinstance(v, Atom) and v.op == 'fnmatch':
             kinds.add('wildcard')
             ok = getattr(v.args[0], 'name', None) == 'ITEM' and 'CRIT' in repr(v.args[1]) and 'ITEM' not in repr(v.args[1])
@@ -248,8 +283,9 @@ def _r4_r5(model, res):
                             res.violation('R5', 'function:%s:index-alignment' % name, m.where(sub),
                                           '%s addresses %s while iterating position %s: criteria and values are no longer aligned' % (name, src(sub), idx),
                                           func=f.name)
-    res.floor('running-extremum updates examined', n4, 1)
-    res.floor('index-aligned subscripts examined', n5, 3)
+    res.soft_floor('running-extremum updates examined', n4, 1)
+    n4 += _maxifs_selected(model, res)
+    res.soft_floor('index-aligned subscripts examined', n5, 3)
 
 
 def _r6(model, res, E):
@@ -358,12 +394,72 @@ def _r7(model, res):
                                   'LARGE must address the sorted items with -n for n >= 1; the subscript is %r and can reach %s' % (idx, mx), func=f.name)
 
 
+def _maxifs_selected(model, res):
+    """MAXIFS on two symbolic items with a criterion each item may or may not meet: on every trace the result is the maximum over
+    exactly the selected items (no constant takes part), and 0 only when nothing is selected."""
+    m, f = model.registered('MAXIFS')
+    try:
+        outs = _runs(model, 'MAXIFS', lambda: [ListV([Sym('int', 'x0'), Sym('int', 'x1')]), ListV([Sym('int', 'c0'), Sym('int', 'c1')]), Const('1')])
+    except Unmodelled as e:
+        res.ob('R4', 'MAXIFS', 'maximum over the selected items', True, 'undecided: %s' % e)
+        return 0
+    n = 0
+    for o in outs:
+        if o.imprecise:
+            continue
+        sel = {}
+        for (t, alt, s) in o.notes:
+            if isinstance(s, Atom) and s.op == 'eq' and isinstance(s.args[0], Sym) and s.args[0].name in ('c0', 'c1'):
+                sel[int(s.args[0].name[1])] = bool(alt)
+        if sorted(sel) != [0, 1]:
+            continue
+        n += 1
+        chosen = ['x%d' % i for i in (0, 1) if sel[i]]
+        v = o.value
+        consts = []
+
+        def leaves(x, acc):
+            if isinstance(x, Sym):
+                acc.append(x.name)
+            elif isinstance(x, Const):
+                consts.append(x.value)
+            elif isinstance(x, Atom):
+                for a in x.args:
+                    leaves(a, acc)
+            return acc
+        if not chosen:
+            ok = o.kind == 'return' and isinstance(v, Const) and v.value == 0
+            why = 'nothing selected: expected 0'
+        else:
+            ls = leaves(v, []) if o.kind == 'return' else None
+            ok = o.kind == 'return' and ls is not None and set(ls) <= set(chosen) and bool(ls) and not consts and \
+                (isinstance(v, Sym) or (isinstance(v, Atom) and v.op == 'max' and sorted(set(ls)) == sorted(chosen)))
+            why = 'selected %s: expected their maximum and nothing else' % chosen
+        res.ob('R4', 'MAXIFS', {'selected': chosen}, ok, '%s; got %s %r' % (why, o.kind, v))
+        if not ok:
+            res.violation('R4', 'function:MAXIFS:extremum-seed', m.where(f),
+                          'MAXIFS with the items %s selected returns %r: the maximum must be taken over exactly the selected items - a constant '
+                          'that takes part (a numeric seed) wins whenever every selected item is below it (all negative items give 0)'
+                          % (chosen, v), case={'selected': chosen}, func=f.name)
+    return n
+
+
 def _regex_wildcards(model, m, f):
     """Wildcard criteria implemented with a regular expression instead of fnmatch: True = matched in full,
     False = prefix match, None = undecided."""
-    from ..callgraph import CallGraph
     funcs = [f] + [g for q, g in m.functions.items() if '.' not in q and any(
         isinstance(n, ast.Call) and isinstance(n.func, ast.Name) and n.func.id == q for n in ast.walk(f))]
+    # helpers in other modules, through the resolved call graph
+    from .. import ctx as ctxmod
+    try:
+        cg = ctxmod.get(model).cg
+        key = (m.name, m.qualname_of(f))
+        for k2 in sorted(cg.reachable([key]) - set(cg.registry_keys) - set([key])):
+            g2 = cg.funcs[k2][1]
+            if g2 not in funcs and isinstance(g2, ast.FunctionDef):
+                funcs.append(g2)
+    except Exception:
+        pass
     uses_fullmatch = uses_match = False
     anchored = False
     for g in funcs:
@@ -373,6 +469,9 @@ def _regex_wildcards(model, m, f):
                     uses_fullmatch = True
                 if n.func.attr in ('match', 'search') and not (isinstance(n.func.value, ast.Name) and n.func.value.id.isupper()):
                     uses_match = True
+            if isinstance(n, ast.Attribute) and n.attr in ('match', 'search') and isinstance(n.value, ast.Call) and \
+                    (sa.call_name(n.value) or '').endswith('compile'):
+                uses_match = True       # re.compile(...).match handed on as a value
                 if n.func.attr == 'translate' and 'fnmatch' in src(n.func.value):
                     anchored = True
             if isinstance(n, ast.Constant) and isinstance(n.value, str) and (n.value.endswith('$') or n.value.endswith('\\Z')) and len(n.value) <= 4:
